@@ -153,9 +153,7 @@ def build(prop_id, model_targets):
         rc, out = _run([PY, os.path.join(VERIF, "translators", "run_all.py")], env=base_env())
         b.translate_ok = rc == 0
         b.translate_log = out
-        if not os.path.exists(os.path.join(COQ, "Makefile")) or \
-                os.path.getmtime(os.path.join(COQ, "Makefile")) < os.path.getmtime(os.path.join(COQ, "_CoqProject")):
-            _run(["coq_makefile", "-f", "_CoqProject", "-o", "Makefile"], cwd=COQ)
+        _run(["bash", os.path.join(COQ, "gen_project.sh")], cwd=COQ)
         gate = grep_gate()
         target = "Props/%s.vo" % prop_id
         rc, out = _run(["make", "-j16", target], cwd=COQ, timeout=3000)
